@@ -22,6 +22,9 @@ def timerHandle (w : TW) (args : List String) : TW × String :=
   | "drop" :: i :: _ => match i.toNat? with
     | some i => let w' := w.step (.drop i); (w', show' w')
     | none => (w, "bad-op")
+  | "pdrop" :: i :: _ => match i.toNat? with   -- dropped while its thread unwinds from a panic: still a drop
+    | some i => let w' := w.step (.drop i); (w', show' w')
+    | none => (w, "bad-op")
   | ["closure"] => let w' := w.step .closure; (w', show' w')
   | ["pobs"] => let w' := w.step .pobs; (w', show' w')
   | ["pflush"] => let w' := w.step .pflush; (w', show' w')
